@@ -120,12 +120,16 @@ type cqp struct {
 	engine   string // fresh | started | stopped
 	prop     string
 	ctxReads bool // the DataStore's handles abort reads once the context OpenFile got has ended
+	parClose bool // the closer's Close calls are made by separate tasks, concurrently
 }
 
 func (p cqp) name() string {
 	n := fmt.Sprintf("%s-c%d-take%d-close%d-cancel_%v-faults_%v-%s", p.fixture, p.conc, p.takes, p.closer, p.cancel, p.faults, p.engine)
 	if p.ctxReads {
 		n += "-ctxreads"
+	}
+	if p.parClose {
+		n += "-parclose"
 	}
 	return n
 }
@@ -257,14 +261,18 @@ func cqRoot(p cqp) func() {
 				}
 			}
 		}()
-		if p.closer > 0 {
+		closerTasks, perTask := 1, p.closer
+		if p.parClose {
+			closerTasks, perTask = p.closer, 1
+		}
+		for ct := 0; ct < closerTasks && p.closer > 0; ct++ {
 			wg.Add(1)
 			go func() {
 				defer wg.Done()
 				if p.fixture == "manyfiles" || p.fixture == "long" {
 					vapi.Quiesce() // terminate a query whose pipeline is saturated behind the stalled consumer
 				}
-				for i := 0; i < p.closer; i++ {
+				for i := 0; i < perTask; i++ {
 					vapi.Log("call Close")
 					if err := res.Close(); err != nil {
 						vapi.Fail("C20: Close returned %v", err)
@@ -515,26 +523,30 @@ func init() {
 			var ps []cqp
 			if tier == "quick" {
 				ps = []cqp{
-					{"small", 2, -1, 0, false, false, "fresh", prop, false},
-					{"small", 2, 1, 1, false, false, "fresh", prop, false},
-					{"small", 1, 0, 0, true, false, "stopped", prop, false},
-					{"small", 2, -1, 1, true, false, "fresh", prop, false},
-					{"small", 2, -1, 0, false, true, "started", prop, false},
-					{"small", 1, -1, 0, false, true, "fresh", prop, false},
-					{"big", 2, 65, 2, false, false, "fresh", prop, false},
+					{"small", 2, -1, 0, false, false, "fresh", prop, false, false},
+					{"small", 2, 1, 1, false, false, "fresh", prop, false, false},
+					{"small", 1, 0, 0, true, false, "stopped", prop, false, false},
+					{"small", 2, -1, 1, true, false, "fresh", prop, false, false},
+					{"small", 2, -1, 0, false, true, "started", prop, false, false},
+					{"small", 1, -1, 0, false, true, "fresh", prop, false, false},
+					{"big", 2, 65, 2, false, false, "fresh", prop, false, false},
 					// preemption-bounded (not delay-bounded, see below): a Next in progress while the
 					// context is cancelled and the pipeline winds down (finding F12)
-					{"small", 1, 1, 1, true, false, "fresh", prop, false},
+					{"small", 1, 1, 1, true, false, "fresh", prop, false, false},
+					// two Close calls from two tasks at once
+					{fixture: "small", conc: 2, takes: 1, closer: 2, engine: "fresh", prop: prop, parClose: true},
 					// reads that fail because the query was terminated (context-aware store)
-					{"small", 2, 1, 1, false, false, "fresh", prop, true},
-					{"small", 1, 0, 0, true, false, "started", prop, true},
+					{"small", 2, 1, 1, false, false, "fresh", prop, true, false},
+					{"small", 1, 0, 0, true, false, "started", prop, true, false},
 					// a stalled consumer behind a saturated pipeline, ended by Close / by cancellation
-					{"manyfiles", 1, 0, 1, false, false, "fresh", prop, false},
-					{"manyfiles", 1, 0, 0, true, false, "fresh", prop, false},
+					{"manyfiles", 1, 0, 1, false, false, "fresh", prop, false, false},
+					{"manyfiles", 1, 0, 0, true, false, "fresh", prop, false, false},
 				}
 			} else {
-				ps = append(ps, cqp{"manyfiles", 1, 0, 1, false, false, "fresh", prop, false}, cqp{"manyfiles", 1, 0, 0, true, false, "fresh", prop, false},
-					cqp{"manyfiles", 2, 1, 2, false, false, "started", prop, false}, cqp{"manyfiles", 1, 0, 1, true, false, "fresh", prop, true})
+				ps = append(ps, cqp{fixture: "small", conc: 2, takes: 1, closer: 2, engine: "fresh", prop: prop, parClose: true}, cqp{fixture: "small", conc: 1, takes: 0, closer: 3, engine: "started", prop: prop, parClose: true},
+					cqp{fixture: "big", conc: 2, takes: 65, closer: 2, engine: "fresh", prop: prop, parClose: true, cancel: true})
+				ps = append(ps, cqp{"manyfiles", 1, 0, 1, false, false, "fresh", prop, false, false}, cqp{"manyfiles", 1, 0, 0, true, false, "fresh", prop, false, false},
+					cqp{"manyfiles", 2, 1, 2, false, false, "started", prop, false, false}, cqp{"manyfiles", 1, 0, 1, true, false, "fresh", prop, true, false})
 				for _, fx := range []string{"small", "big"} {
 					for _, conc := range []int{1, 2} {
 						for _, takes := range []int{-1, 0, 1, 65} {
@@ -550,9 +562,9 @@ func init() {
 										if fx == "big" && (faults || (closer > 0 && cancel)) {
 											continue
 										}
-										ps = append(ps, cqp{fx, conc, takes, closer, cancel, faults, []string{"fresh", "started", "stopped"}[(conc+closer+takes+3)%3], prop, false})
+										ps = append(ps, cqp{fx, conc, takes, closer, cancel, faults, []string{"fresh", "started", "stopped"}[(conc+closer+takes+3)%3], prop, false, false})
 										if !faults && (closer > 0 || cancel) {
-											ps = append(ps, cqp{fx, conc, takes, closer, cancel, false, "fresh", prop, true})
+											ps = append(ps, cqp{fx, conc, takes, closer, cancel, false, "fresh", prop, true, false})
 										}
 									}
 								}
@@ -601,15 +613,15 @@ func init() {
 	fixtureHits["long"] = 453
 	Registry["C23"] = func(tier string) []Scenario {
 		ps := []cqp{
-			{"long", 1, 1, 1, false, false, "fresh", "C23", false},
-			{"long", 2, 70, 0, true, false, "fresh", "C23", false},
-			{"big", 2, 65, 1, false, false, "fresh", "C23", false},
-			{"small", 2, 1, 1, true, false, "started", "C23", false},
-			{"small", 2, -1, 0, false, true, "fresh", "C23", false},
+			{"long", 1, 1, 1, false, false, "fresh", "C23", false, false},
+			{"long", 2, 70, 0, true, false, "fresh", "C23", false, false},
+			{"big", 2, 65, 1, false, false, "fresh", "C23", false, false},
+			{"small", 2, 1, 1, true, false, "started", "C23", false, false},
+			{"small", 2, -1, 0, false, true, "fresh", "C23", false, false},
 		}
 		if tier == "thorough" {
-			ps = append(ps, cqp{"long", 2, 129, 1, false, false, "fresh", "C23", true}, cqp{"long", 1, 1, 0, true, false, "stopped", "C23", false},
-				cqp{"small", 1, 1, 2, false, true, "fresh", "C23", false}, cqp{"big", 1, 1, 1, true, false, "fresh", "C23", false}, cqp{"manyfiles", 1, 1, 1, false, false, "fresh", "C23", false})
+			ps = append(ps, cqp{"long", 2, 129, 1, false, false, "fresh", "C23", true, false}, cqp{"long", 1, 1, 0, true, false, "stopped", "C23", false, false},
+				cqp{"small", 1, 1, 2, false, true, "fresh", "C23", false, false}, cqp{"big", 1, 1, 1, true, false, "fresh", "C23", false, false}, cqp{"manyfiles", 1, 1, 1, false, false, "fresh", "C23", false, false})
 		}
 		var out []Scenario
 		for _, p := range ps {
